@@ -22,3 +22,4 @@ CHECK = dict(
     shards={"quick": 3, "thorough": 8},
     gomaxprocs=5,
 )
+CHECK["claim"] += ' Fifth session: the faulty member also presents WHOLE signature lists that are genuine and complete for something else (the other payload of the id, the other id, the other session) with this payload; the two ceremony sessions are related identifiers (33 bytes, equal in the first 32).'
